@@ -60,6 +60,14 @@ Theorem C18_labels_in_basis_refuted_log :
     /\ final_labels b false l = None.
 Proof. exact labels_in_basis_refuted_log. Qed.
 Print Assumptions C18_labels_in_basis_refuted_log.
+Theorem C18_labels_in_basis_refuted_abs :
+  exists b e d l, supportedb e = true /\ over_basisb b e = true /\ std_binary b = true
+    /\ decorate b e = Some d /\ no_bad b d = true /\ to_list b None d = Some l
+    /\ map show_rlabel (relabel l) = ["pow"; "abs"; "-"; "a0"; "a2"; "a0"]
+    /\ forallb (in_basisb b) (relabel l) = false
+    /\ final_labels b false l = None.
+Proof. exact labels_in_basis_refuted_abs. Qed.
+Print Assumptions C18_labels_in_basis_refuted_abs.
 (* ... and the complement: for a formula over a basis with the five binary operators every operator label is a
    basis label or one of "sqrt", "log", "abs". *)
 Theorem C18_labels_in_basis_except_sqrt_log : forall b e d l,
@@ -77,8 +85,15 @@ Theorem C18_constants_kept : forall b l0 l',
 Proof. exact constants_kept. Qed.
 Print Assumptions C18_constants_kept.
 
-(* with replacement: exactly the parameters and the numbers whose parent is not pow are replaced, the k-th replaced
-   position becoming a<k> *)
+(* with replacement: exactly the parameters and the numbers whose parent is not pow (a number at the root has no
+   parent: replaced) are replaced, the k-th replaced position becoming a<k>; the replacement step never raises *)
+Theorem C18_replace_from_total : forall l k, exists out, replace_from k l = Some out.
+Proof. exact replace_from_total. Qed.
+Print Assumptions C18_replace_from_total.
+Theorem C18_root_number_replaced : forall b t qv qp,
+  option_map (map show_rlabel) (final_labels b true [LNum t qv qp]) = Some ["a0"].
+Proof. exact root_number_replaced. Qed.
+Print Assumptions C18_root_number_replaced.
 Theorem C18_replace_floats_spec : forall b l0 l',
   final_labels b true l0 = Some l' ->
   exists s ps, shape b (relabel l0) = Some s /\ parents (combine (relabel l0) s) = Some ps
@@ -140,9 +155,9 @@ Example C18_ex_final :
   option_map (map show_rlabel) (fit_labels keep_duplicates true [Some ex_e; None; None; None])
   = Some ["-"; "*"; "a0"; "x"; "*"; "a1"; "/"; "pow"; "x"; "2"; "a2"].
 Proof. vm_compute. reflexivity. Qed.
-(* a number that is the root has no parent: replace_floats raises (AttributeError in the Python code) *)
+(* a number that is the root has no parent: it is replaced (repaired in /repo 2dc0910; it used to raise) *)
 Example C18_ex_root_number :
-  fit_labels core_maths true [Some (ENum "Float" "2.00000000000000" 2 2)] = None
+  option_map (map show_rlabel) (fit_labels core_maths true [Some (ENum "Float" "2.00000000000000" 2 2)]) = Some ["a0"]
   /\ option_map (map show_rlabel) (fit_labels core_maths false [Some (ENum "Float" "2.00000000000000" 2 2)]) = Some ["2.00000000000000"].
 Proof. vm_compute. auto. Qed.
 (* a constant inside a compound exponent IS replaced: only direct children of pow are protected *)
